@@ -15,8 +15,10 @@
         caught ends the selection set), executeField / completeValue (non-null, list, leaf, object,
         abstract type resolution with IsTypeOf = comparison of the resolver's tag),
         catchErrorIfNullable                                          [collect], [sexec]
-    Not transcribed (documents that would trigger them are outside the correspondence, [doc_wf] in
-    FeaturesCheck.v): the field-merging rule (response keys are pairwise distinct), arguments,
+    Equal response keys: the executor's grouping and merging of selection sets IS transcribed
+    ([group_entries]); the validator's field-merging RULE is not — the correspondence is for documents
+    whose equal keys select the same field of the same scope ([doc_wf] in FeaturesCheck.v), for which
+    that rule never fires.  Not transcribed either: arguments,
     variables, directives, mutations, undefined / unused / cyclic fragments.
     The executor recursion is not structural (a spread continues in a fragment definition): explicit
     fuel, explicit [None] = out of fuel.  No proofs in this file. *)
@@ -207,6 +209,21 @@ Section Exec.
     | Datatypes.S n => collect_go (collect n)
     end.
 
+  (** grouped_field_set.go Append + mergeSelectionSets: fields of one response key form one group,
+      in the order of the first occurrence; the group is resolved once, through the definition of
+      its first field, and its selection set is the concatenation of the members' selection sets *)
+  Fixpoint sels_app (a b : sels) : sels :=
+    match a with SNil => b | SCons s r => SCons s (sels_app r b) end.
+  Fixpoint group_add (e : centry) (g : list centry) : list centry :=
+    match g with
+    | [] => [e]
+    | x :: r =>
+        if bytes_eqb (ce_key e) (ce_key x)
+        then {| ce_key := ce_key x; ce_field := ce_field x; ce_sub := sels_app (ce_sub x) (ce_sub e) |} :: r
+        else x :: group_add e r
+    end.
+  Definition group_entries (es : list centry) : list centry := fold_left (fun g e => group_add e g) es [].
+
   Section Step.
     (** executeSelections with less fuel *)
     Variable rec : name -> sels -> elog -> prog eres.
@@ -278,7 +295,7 @@ Section Exec.
         bind (collect n obj l ([], [])) (fun c =>
           match c with
           | None => Ret None
-          | Some st => exec_fields (sexec n) obj (snd st) log []
+          | Some st => exec_fields (sexec n) obj (group_entries (snd st)) log []
           end)
     end.
 End Exec.
@@ -330,9 +347,9 @@ Definition ssub_prog (fuel events : nat) (d : sdoc)
         bind (sdoc_val s d) (fun errs =>
           if is_nil errs then
             bind (collect (d_frags d) fuel s (d_sels d) ([], [])) (fun c =>
-              match c with
+              match option_map (fun st => group_entries (snd st)) c with
               | None => Ret (errs, Some None)
-              | Some (_, [e]) =>
+              | Some [e] =>
                   match ce_field e with
                   | Some f =>
                       Ask (QField s f) (fun af =>
